@@ -363,7 +363,13 @@ def r5(F, rep):
         raise AnalysisBroken("C18-R5: only %d arithmetic uses of colvar::period / wrap_center found" % n)
 
 
+def r6(F, rep):
+    from .rules_c20 import self_default
+    self_default(F, rep, "C18-R6", only=("period", "wrap_center"))
+
+
 def run(F, rep, tier):
+    r6(F, rep)
     r5(F, rep)
     r1(F, rep)
     r2(F, rep)
